@@ -7,6 +7,7 @@ import (
 
 	"encoding/json"
 	"fmt"
+	"sort"
 	"strings"
 	"time"
 
@@ -493,7 +494,8 @@ func checkC10(c *hx.Ctx) {
 				if !ok || depth == 0 {
 					return
 				}
-				for k, x := range m {
+				for _, k := range keysSorted(m) {
+					x := m[k]
 					p := append(append([]string{}, prefix...), k)
 					paths = append(paths, p)
 					walk(p, x, depth-1)
@@ -549,10 +551,11 @@ func checkC10(c *hx.Ctx) {
 				payload := v.spec.SignedPayload()
 				var ppaths [][]string
 				walk2 := func(prefix []string, node map[string]interface{}) {
-					for k, x := range node {
+					for _, k := range keysSorted(node) {
+						x := node[k]
 						ppaths = append(ppaths, append(append([]string{}, prefix...), k))
 						if sub, ok := x.(map[string]interface{}); ok {
-							for k2 := range sub {
+							for _, k2 := range keysSorted(sub) {
 								ppaths = append(ppaths, append(append([]string{}, prefix...), k, k2))
 							}
 						}
@@ -1009,11 +1012,11 @@ func checkC10(c *hx.Ctx) {
 			case 6: // delete a random member path
 				var t map[string]interface{}
 				_ = json.Unmarshal(src, &t)
-				for key := range t {
+				for _, key := range keysSorted(t) {
 					if r.Chance(1, 3) {
 						delete(t, key)
 					} else if sub, ok := t[key].(map[string]interface{}); ok {
-						for k2 := range sub {
+						for _, k2 := range keysSorted(sub) {
 							if r.Chance(1, 3) {
 								sub[k2] = nil
 							}
@@ -1098,8 +1101,8 @@ func scramble(r *hx.Rng, v interface{}) interface{} {
 	switch t := v.(type) {
 	case map[string]interface{}:
 		m := map[string]interface{}{}
-		for k, x := range t {
-			m[k] = scramble(r, x)
+		for _, k := range keysSorted(t) {
+			m[k] = scramble(r, t[k])
 		}
 		return m
 	case []interface{}:
@@ -1123,4 +1126,14 @@ func swapCase(s string) string {
 		}
 	}
 	return string(b)
+}
+
+// keysSorted: map members in a fixed order, so that a PRNG consumed while walking a JSON tree always sees the same sequence.
+func keysSorted(m map[string]interface{}) []string {
+	out := make([]string, 0, len(m))
+	for k := range m {
+		out = append(out, k)
+	}
+	sort.Strings(out)
+	return out
 }
